@@ -256,6 +256,17 @@ def linearInfo (cfg : Cfg) (init : Init) (ops : List TOp) : Json :=
        ("model", match runL cfg init.table lin.1 with | .ok t => absToJson t.abs | .error e => obj [("err", Json.str (errName e))]),
        ("spec", match runLS cfg init.table.abs lin.1 with | .ok a => absToJson a | .error e => obj [("err", Json.str (errName e))])]
 
+/-- the machine with per-object `_lohis` caches on the same operations: its observations, whether `OKC`
+holds, how many live objects are fresh / stale at the end, and whether every fresh one passes `invB` and `cohB` -/
+def cachedInfo (cfg : Cfg) (init : Init) (ops : List TOp) : Json :=
+  let fin := finalC cfg (initC init) ops
+  let live := fin.filterMap id
+  obj [("obs", ofList obsToJson (runC cfg init ops)),
+       ("okc", Json.bool (cfg.resortInsert && invB init.table && OKC cfg (initC init) ops)),
+       ("fresh", ofNat (live.filter (·.fresh)).length), ("stale", ofNat (live.filter (fun o => !o.fresh)).length),
+       ("warm", ofNat (live.filter (fun o => match o.cache with | some (_ :: _) => true | _ => false)).length),
+       ("good_end", Json.bool ((live.filter (·.fresh)).all (fun o => invB o.t && cohB cfg o.t o.cache)))]
+
 /-- request `{"cfg":{…}, "init":…, "ops":[…]}` → `{"model":[obs…], "spec":[…]}` (first entry of
 `model`: the initial table; `spec` has one entry per operation) -/
 def handle (req : Json) : Except String Json := do
@@ -265,6 +276,7 @@ def handle (req : Json) : Except String Json := do
   let res := runWithSpec cfg [some init.table] ops
   pure (obj [("model", ofList obsToJson (observe init.table :: res.map (·.1))),
              ("spec", Json.arr (res.map (·.2)).toArray),
+             ("cached", cachedInfo cfg init ops),
              ("linear", linearInfo cfg init (ops.filter (fun o => match o with | .peek _ => false | _ => true)))])
 
 end Coba.C17.Driver
